@@ -133,6 +133,7 @@ def located_error(
     exceptions = (
         original_error.exceptions
         if isinstance(original_error, MultipleException)
+        and original_error.exceptions
         else [original_error]
     )
 
